@@ -11,7 +11,21 @@ FOCUS = ("filters", "redirect", "maxaer")
 
 
 def ee(q):
-    return sum(10 ** (-(ord(c) - 33) / 10) for c in q)
+    return sum(10 ** (-(ord(c) - 33) / 10) for c in q or "")
+
+
+def as_fasta(case):
+    """the same filter case on FASTA input (headers keep their CASAVA comment): the criteria that need no qualities hold for all reads, whatever
+    the format; the quality-based options are left out"""
+    argv, skip = [], 0
+    for t in case["argv"]:
+        if skip:
+            skip -= 1
+        elif t in ("--max-ee", "--max-aer"):
+            skip = 1
+        else:
+            argv.append(t[:-6] + ".fasta" if t.startswith("{dir}/") and t.endswith(".fastq") else t)
+    return dict(case, argv=argv, with_qual=False, reads1=[(n_, s_, None) for n_, s_, _ in case["reads1"]])
 
 
 MAXN_CORNERS = [(n_, L_) for L_ in range(2, 121) for n_ in range(1, L_) if (n_ / L_) * L_ != n_]
@@ -95,6 +109,7 @@ def oracle(ctx, case, res, real):
     maxn, maxee, maxaer = opt(argv, "--max-n", float), opt(argv, "--max-ee", float), opt(argv, "--max-aer", float)
     expected = {}
     counts = {}
+    ext = "fastq" if case["with_qual"] else "fasta"
     # IEEE boundary: when a threshold coincides (to 1e-9) with a read's own expected-error value, the implementation's table-based sum and
     # this oracle's 10**(-Q/10) sum may fall on different sides; such cases are float artefacts (DESIGN.md section 5) and are skipped
     for name, s, q in case["reads1"]:
@@ -107,9 +122,9 @@ def oracle(ctx, case, res, real):
         nn = s.lower().count("n")
         e = ee(q)
         if m is not None and len(s) < m:
-            dest = ("too_short", "ts1.fastq" if "--too-short-output" in argv else None)
+            dest = ("too_short", "ts1." + ext if "--too-short-output" in argv else None)
         elif M is not None and len(s) > M:
-            dest = ("too_long", "tl1.fastq" if "--too-long-output" in argv else None)
+            dest = ("too_long", "tl1." + ext if "--too-long-output" in argv else None)
         elif maxn is not None and ((maxn < 1 and len(s) > 0 and nn / len(s) > maxn) or (maxn >= 1 and nn > maxn)):
             dest = ("too_many_n", None)
         elif maxee is not None and e > maxee:
@@ -123,9 +138,9 @@ def oracle(ctx, case, res, real):
         elif "--discard-untrimmed" in argv and not trimmed:
             dest = ("discard_untrimmed", None)
         elif "--untrimmed-output" in argv and not trimmed:
-            dest = ("discard_untrimmed", "ut1.fastq")
+            dest = ("discard_untrimmed", "ut1." + ext)
         else:
-            dest = (None, "o1.fastq")
+            dest = (None, "o1." + ext)
         expected[rid(name)] = dest
         if dest[0]:
             counts[dest[0]] = counts.get(dest[0], 0) + 1
@@ -281,6 +296,9 @@ def run(ctx):
     for _ in range(ctx.scale(150, 3000)):
         c = gen_filter_case(ctx)
         c["filter_case"] = True
+        if ctx.rng.random() < 0.25:
+            c = as_fasta(c)
+            ctx.count("directed-fasta-input")
         cases.append(c)
     for case, res, real, model in pipe.run_cases(ctx, cases):
         ctx.count("directed")
